@@ -185,6 +185,9 @@ def occurrence_types():
             if mx != 'unbounded' and mx < mn:
                 continue
             out.append(('Integer(min_occurs=%s,max_occurs=%s)' % (mn, mx), T('Integer', min_occurs=mn, max_occurs=mx), mn, mx))
+    # a repeated member whose declared default is the empty list (the requests of a shard follow each other on one
+    # application: what one request carried must not be there for the next)
+    out.append(('Integer(max_occurs=unbounded,default=[])', T('Integer', min_occurs=0, max_occurs='unbounded', default=[]), 0, 'unbounded'))
     return out
 
 
@@ -430,6 +433,9 @@ def run_shard(shard):
     res['cov']['programs'] += 1
     mname = 'm'
     fams = [f for f in FAMILIES if not (pos == 'xmlattr' and f not in ('xml', 'soap11'))]
+    if isinstance(validity.attrs_of(t).get('default'), list) or (t[0] == 'a' and isinstance(validity.attrs_of(t[1]).get('default'), list)):
+        # (a list-valued default cannot be written into an XML Schema: the type is used with the dict documents and HttpRpc)
+        fams = [f for f in fams if f not in ('xml', 'soap11')]
     hs = {}
     for fam in fams:
         try:
